@@ -31,7 +31,7 @@ func ParseJSONB(data []byte) interface{} {
 	count := int(header & jbCMask)
 	isObj, isArr := header&jbFObject != 0, header&jbFArray != 0
 
-	if (!isObj && !isArr) || count > 10000 {
+	if !isObj && !isArr {
 		return nil
 	}
 	if count == 0 {
@@ -46,6 +46,8 @@ func ParseJSONB(data []byte) interface{} {
 	if isObj {
 		numEntries *= 2
 	}
+	// The count is bounded by the input, not by a constant: the JEntry words of all children
+	// (4 bytes per array element, 8 per object pair) must lie inside the data.
 	if 4+numEntries*4 > len(data) {
 		return nil
 	}
@@ -56,11 +58,14 @@ func ParseJSONB(data []byte) interface{} {
 	}
 	dataStart := 4 + numEntries*4
 
+	// End offsets of all entries in one forward pass: the stored offset where HAS_OFF is set, the
+	// previous end plus the stored length elsewhere (linear, whatever the placement of the flags).
 	// End offsets never decrease in a container written by PostgreSQL.  Refusing the others keeps
 	// the children disjoint (otherwise k children can alias the same bytes and nested parsing
 	// costs k^depth).
+	ends := make([]int, numEntries)
 	end := 0
-	for _, je := range entries {
+	for i, je := range entries {
 		v := int(je & jeOffMask)
 		if je&jeHasOff == 0 {
 			end += v
@@ -69,13 +74,14 @@ func ParseJSONB(data []byte) interface{} {
 		} else {
 			end = v
 		}
+		ends[i] = end
 	}
 
 	var result interface{}
 	if isObj {
-		result = parseJSONBObject(data, entries, dataStart, count)
+		result = parseJSONBObject(data, entries, ends, dataStart, count)
 	} else {
-		result = parseJSONBArray(data, entries, dataStart, count)
+		result = parseJSONBArray(data, entries, ends, dataStart, count)
 	}
 
 	if header&jbFScalar != 0 {
@@ -86,29 +92,33 @@ func ParseJSONB(data []byte) interface{} {
 	return result
 }
 
-func parseJSONBObject(data []byte, entries []uint32, dataStart, count int) map[string]interface{} {
+// ends[i] is the end offset of entry i (relative to dataStart); entry i starts where entry i-1 ends.
+func parseJSONBObject(data []byte, entries []uint32, ends []int, dataStart, count int) map[string]interface{} {
 	// keys and values share one JEntry array: offsets (and the HAS_OFF stride) run over all of it
-	vals := entries[count:]
+	vals, valEnds := entries[count:], ends[count:]
 
 	result := make(map[string]interface{}, count)
+	kOff, vOff := 0, ends[count-1]
 	for i := 0; i < count; i++ {
-		kOff, kLen := entryOffLen(entries, i, 0)
+		kLen := ends[i] - kOff
 		key := ""
 		if kLen >= 0 && dataStart+kOff+kLen <= len(data) {
 			key = string(data[dataStart+kOff : dataStart+kOff+kLen])
 		}
 
-		vOff, vLen := entryOffLen(entries, count+i, 0)
+		vLen := valEnds[i] - vOff
 		result[key] = decodeJEntry(data, dataStart+vOff, vLen, vals[i])
+		kOff, vOff = ends[i], valEnds[i]
 	}
 	return result
 }
 
-func parseJSONBArray(data []byte, entries []uint32, dataStart, count int) []interface{} {
+func parseJSONBArray(data []byte, entries []uint32, ends []int, dataStart, count int) []interface{} {
 	result := make([]interface{}, count)
+	off := 0
 	for i := 0; i < count; i++ {
-		off, length := entryOffLen(entries, i, 0)
-		result[i] = decodeJEntry(data, dataStart+off, length, entries[i])
+		result[i] = decodeJEntry(data, dataStart+off, ends[i]-off, entries[i])
+		off = ends[i]
 	}
 	return result
 }
